@@ -30,13 +30,14 @@
    Variants: [NFixed] the tree; [NClearDangling] the shape of seeded change C03-9 (the clear branch of
    vnacal_new_set_m_error frees through a local copy and leaves vn_m_error_vector set); [NHoldEarly] the
    shape of C12-9 (_vnacal_new_get_parameter takes its hold before the recursion and releases it only when
-   its own malloc fails).  No proofs in this file. *)
+   its own malloc fails); [NSplineLate] vnacal_new_set_m_error before the repair DI90 (the vector is allocated and zeroed
+   before _vnacommon_spline_calc runs, so a failing spline leaves it behind).  No proofs in this file. *)
 Require Import List ZArith Bool Arith Lia.
 Import ListNotations.
 Require Import LV.Mem.Alloc LV.Mem.PropList.
 Open Scope Z_scope.
 
-Inductive nvariant := NFixed | NClearDangling | NHoldEarly.
+Inductive nvariant := NFixed | NClearDangling | NHoldEarly | NSplineLate.
 
 (* ------------------------------------------------------------------ generic request sequences *)
 (* requests of the given sizes, one after the other; stops at the first failure.
@@ -323,18 +324,32 @@ Definition set_m_error (nv : nvariant) (v : vnew) (a : merr_arg) : M (vnew * out
   | MESet n =>
       if negb (vn_fvalid v) then ret (v, Err EINVAL)
       else
-        r <- (match vn_merr v with
-              | Some b => ret (Some v)
-              | None =>
-                  m <- malloc (Z.of_nat (c_freqs (vn_cfg v)) * 16) ;;
-                  ret (match m with None => None | Some b => Some (set_merr v (Some b)) end)
-              end) ;;
-        match r with
-        | None => ret (v, Err ENOMEM)
-        | Some v1 =>
-            (if (0 <? c_freqs (vn_cfg v))%nat then touch (vn_merr v1) else ret tt) ;;;     (* "Always init the vector" *)
+        let install : M (option vnew) :=
+          match vn_merr v with
+          | Some b => ret (Some v)
+          | None =>
+              m <- malloc (Z.of_nat (c_freqs (vn_cfg v)) * 16) ;;
+              ret (match m with None => None | Some b => Some (set_merr v (Some b)) end)
+          end in
+        let init (v1 : vnew) : M unit :=                       (* "Always init the vector" *)
+          if (0 <? c_freqs (vn_cfg v))%nat then touch (vn_merr v1) else ret tt in
+        match nv with
+        | NSplineLate =>
+            r <- install ;;
+            match r with
+            | None => ret (v, Err ENOMEM)
+            | Some v1 => init v1 ;;; ok <- spline_calcs n ;; ret (v1, if ok then Done else Err ENOMEM)
+            end
+        | _ =>
+            (* DI90: the spline coefficients are calculated before the vector is touched *)
             ok <- spline_calcs n ;;
-            ret (v1, if ok then Done else Err ENOMEM)
+            if negb ok then ret (v, Err ENOMEM)
+            else
+              r <- install ;;
+              match r with
+              | None => ret (v, Err ENOMEM)
+              | Some v1 => init v1 ;;; ret (v1, Done)
+              end
         end
   end.
 
